@@ -442,6 +442,10 @@ FIXED += [
     {"id": "weighted", "start": "Expr", "classes": [
         _c("Expr", "", abstract=True), _c("Lit", "Expr", [("v", I01)], weight=3),
         _c("Neg", "Expr", [("e", E)], weight=2), _c("Plus", "Expr", [("l", E), ("r", E)], weight=1)]},
+    # a union one of whose members is a composite (list) type over the recursive symbol
+    {"id": "unionlist", "start": "Expr", "classes": [
+        _c("Expr", "", abstract=True), _c("Lit", "Expr", [("v", I01)]),
+        _c("Grp", "Expr", [("u", ("union", [("sym", "Lit"), ("ann", ("list", E), ("ListSize", 1, 2))]))])]},
     # weights under TWO non-terminals
     {"id": "weighted2", "start": "Expr", "classes": [
         _c("Expr", "", abstract=True), _c("Op", "", abstract=True),
